@@ -711,12 +711,14 @@ fn check_case(model: &mut Model, ctx: &Ctx, r: &mut Report, wire: &str, source: 
         }
         // smallest disagreeing sub-expression, for the report
         let mut smallest = wire.clone();
+        let mut smallest_answers = (real.text(), model_text.clone());
         for sub in subexpressions(&wire) {
             if let Ok(e) = astsexp::sexp_to_expr(&sub) {
                 if let Some(a) = real_answers(&e) {
                     let m = model.ask(&format!("c08.eval {}", astsexp::expr_to_sexp(&e)));
                     if parse_model_answers(&m).as_ref() != Some(&a) {
                         smallest = sub;
+                        smallest_answers = (a.text(), m);
                         break;
                     }
                 }
@@ -738,7 +740,7 @@ fn check_case(model: &mut Model, ctx: &Ctx, r: &mut Report, wire: &str, source: 
                     kind: "correspondence".into(),
                     check: "model-vs-evaluator".into(),
                     what: "the Lean evaluator model and the real Evaluator give different answers; the theorems about the model no longer speak about this code".into(),
-                    input: json!({"expr": smallest, "within": wire, "real": real.text(), "model": model_text}),
+                    input: json!({"expr": smallest, "within": wire, "real": smallest_answers.0, "model": smallest_answers.1}),
                     failing_input_found: false,
                 });
             }
